@@ -96,4 +96,14 @@ PROPS = {
                         "option codes passed to WithRequestedOptions are of the library's own code type (its constants/decoder); OptionCodeList.Has compares interface values"],
         "trusted_base": ["modelled, not verified: dhcpv4/modifiers.go and the New* builders"],
     },
+    "C16": {
+        "coq_files": BASE + ["Label/", "V4/Model.v", "V6/Model.v", "V6/Dump.v", "V6/Relay.v", "V6/RelayProofs.v", "Props/C16.v"],
+        "rule": "relay-forward chains of depth 1..16 (quick) / 1..64 (thorough) with random link/peer addresses and every subset of interface-id / remote-id per level "
+                "(before or after the relay-message option), inner messages of every type with subsets of client id, server id, IA_NA, IA_PD, rapid commit, vendor class "
+                "(and duplicates); EncapsulateRelay, DecapsulateRelay(Index), GetInnerMessage, NewRelayReplFromRelayForw, NewAdvertiseFromSolicit, NewRequestFromAdvertise, "
+                "NewReplyFromMessage vs the model (value-tree dumps), also after ToBytes/FromBytes; direct oracles for depth, level-wise addresses, echo and innermost reply; "
+                "non-trivial = distinct case with ok result",
+        "assumptions": ["messages enter the functions as decodings of generated wire bytes; the fresh transaction id of NewRequestFromAdvertise is zeroed before comparison"],
+        "trusted_base": ["modelled, not verified: dhcpv6 relay functions and message builders"],
+    },
 }
